@@ -317,6 +317,8 @@ def sc_terminate(params, obs, save):
             h = pool.apply_async(tasks.t_translate, (tag, 60), **_lw(params))
         elif state == 'ignore_term':
             h = pool.apply_async(tasks.t_ignore_term, (tag, 60), **_lw(params))
+        elif state == 'sending_result':
+            h = pool.apply_async(tasks.t_slow_result, (tag, 60), **_lw(params))
         else:
             h = None
         if h is not None:
@@ -439,7 +441,8 @@ def sc_signal_worker(params, obs, save):
         h = None
     else:
         fn = {'python': tasks.t_busy, 'c_sleep': tasks.t_value,
-              'except_handler': tasks.t_in_handler, 'translate': tasks.t_translate}[state]
+              'except_handler': tasks.t_in_handler, 'translate': tasks.t_translate,
+              'sending_result': tasks.t_slow_result}[state]
         h = pool.apply_async(fn, ('victim', 30), lost_worker_timeout=T)
         if not _wait_for(lambda: h.accepted(), 10):
             obs['not_accepted'] = True
